@@ -39,12 +39,16 @@ type RuleSpec struct {
 	Invalid    string            `json:"invalid,omitempty"` // why the reference recogniser rejects it ("" = valid)
 	Conflict   bool              `json:"conflict,omitempty"` // deliberately the same verb+template as an earlier rule of another method
 	Long       bool              `json:"long,omitempty"`     // well-formed but beyond larking's documented token budget: accepted or refused with an error, never a panic
+	Wild       bool              `json:"wild,omitempty"`     // the rule selects its method as "pkg.Service.*" (services with one method only: the same selection as the exact name)
 	Path       string            `json:"path,omitempty"`    // a path instantiated from the template
 	Want       map[string]string `json:"want,omitempty"`    // field path -> text the path binds to it
 }
 
 func (r *RuleSpec) httpRule() *annotations.HttpRule {
 	out := &annotations.HttpRule{Selector: r.Selector, Body: r.Body, ResponseBody: r.RespBody}
+	if r.Wild {
+		out.Selector = serviceOf(r.Selector) + ".*"
+	}
 	switch {
 	case r.Verb == "get":
 		out.Pattern = &annotations.HttpRule_Get{Get: r.Template}
@@ -441,6 +445,9 @@ func genC16(r *core.Rand, run int) *MuxScenario {
 				rule.Additional = []RuleSpec{mid}
 				rule.Invalid, rule.Path, rule.Want = "nested-additional-bindings", "", nil
 			}
+		}
+		if (m.Service == "larking.testpb.Complex" || m.Service == "larking.testpb.WellKnown") && r.Chance(1, 3) {
+			rule.Wild = true // a one-method service: "Service.*" selects the same method
 		}
 		sc.Rules = append(sc.Rules, rule)
 	}
@@ -839,7 +846,11 @@ func rulesOf(sc *MuxScenario, service string) []RuleSpec {
 func rulesString(rules []RuleSpec) string {
 	var parts []string
 	for _, r := range rules {
-		s := fmt.Sprintf("{%s %s %q body=%q resp=%q", r.Selector[strings.LastIndex(r.Selector, ".")+1:], r.Verb, r.Template, r.Body, r.RespBody)
+		name := r.Selector[strings.LastIndex(r.Selector, ".")+1:]
+		if r.Wild {
+			name += "(.*)"
+		}
+		s := fmt.Sprintf("{%s %s %q body=%q resp=%q", name, r.Verb, r.Template, r.Body, r.RespBody)
 		if len(r.Additional) > 0 {
 			s += " +" + rulesString(r.Additional)
 		}
